@@ -30,7 +30,7 @@ FUNCTIONS = [
     "ombott.request_pkg.request:BaseRequest.__init__", "ombott.request_pkg.request:BaseRequest._raise",
     "ombott.request_pkg.body_mixin:BodyMixin._body", "ombott.error_render:render",
 ]
-STUBS = ["PyBytesIO for io.BytesIO/TemporaryFile inside body_mixin",
+STUBS = ["PyBytesIO for io.BytesIO/TemporaryFile inside body_mixin", "FaultStream: wsgi.input whose 2nd read() raises (kinds streamfail / streamreset)",
          "the clock static_stream reads (Date of a 304) is fixed; static_file kinds read two real files made by the harness"]
 ASSUMPTIONS = ["every application of a query gets an errors_map with the default contents but objects of its own (the default map is shared process-wide)", "one worker thread; requests served strictly one after another; the server iterates and closes each response"]
 OUTSIDE = ["histories longer than 3", "request kinds outside the enumerated list", "symbolic text longer than 1-2 characters",
